@@ -102,7 +102,7 @@ PROPS = {
                  "written and stored as extents). Scenarios place the media-data size at 2^32-1 / 2^32 (+1, -2, far above in thorough), a chunk offset "
                  "at 2^32-1 / 2^32 / 2^32+1 both by volume and by starting the output at stream position ~2^32, the media-header duration at "
                  "2^32-1 / 2^32 / 2^32+1, track/movie header durations across 2^32 independently of the media header via timescale ratios, and "
-                 "(thorough) a single chunk > 4 GiB; for every media kind; plus 6 000 (thorough 200 000) generated no-volume scenarios (boundary placed by the start position / by durations and timescales); half of all scenarios mux into a sink that takes small writes 1, 3 or 7 bytes at a time. Outputs are judged by the independent decoder (64-bit form iff needed, no "
+                 "(thorough) a single chunk > 4 GiB; for every media kind; plus 20 000 (thorough 200 000) generated no-volume scenarios (boundary placed by the start position / by durations and timescales); half of all scenarios mux into a sink that takes small writes 1, 3 or 7 bytes at a time. Outputs are judged by the independent decoder (64-bit form iff needed, no "
                  "truncated field, versions) and read back completely through the real reader. distinct_nontrivial = distinct scenarios plus "
                  "distinct (scenario family, boundary side) pairs."),
         "assumptions": [
@@ -116,7 +116,7 @@ PROPS = {
         "profiles": ["chk"],
         "death_is_violation": True,
         "exhaustive": {"quick": False, "thorough": False},
-        "min_evals": {"quick": 18000, "thorough": 300000},
+        "min_evals": {"quick": 40000, "thorough": 300000},
         "rule": ("files are synthesised by the independent reference encoder from a logical movie and a physical layout; the library only reads. "
                  "Exhaustive stratum: one track of N = 0..6 (thorough 0..7) samples x every composition of N into chunks x every subset of optional "
                  "stsc run breaks, crossed with stco/co64, fixed/varying/zero sizes, ctts absent/v0/v1, stss absent/present, split or maximal "
@@ -232,14 +232,14 @@ PROPS = {
         # the `sanit` workload under the Miri interpreter (16 shards x miri_cases hostile inputs)
         "supplementary": {"thorough": ["asan", "miri"]},
         "miri_cases": 100,
-        "min_evals": {"quick": 270000, "thorough": 2000000},
+        "min_evals": {"quick": 600000, "thorough": 2000000},
         "rule": ("seed corpus of ~50 valid files (the canned samples, reference-encoded movies of every codec/layout with metadata, edit lists, emsg, "
                  "fragmented streams and init+segment pairs, muxer outputs); mutators: single substitution of a boundary-value set (0,1,...,2^W-1, n, "
                  "remaining, box size, +-1/8/16, count that just fits) into every field of the reference encoder's field map (sizes, largesizes, fourccs, "
-                 "versions, flags, counts, lengths, offsets, values; all of them in thorough; in quick a 2000-per-seed sample plus the extremes 0 / max-1 / max "
+                 "versions, flags, counts, lengths, offsets, values; all of them in thorough; in quick a 4000-per-seed sample plus the extremes 0 / max-1 / max "
                  "of EVERY field), directed size+count pairs (every count field together with the sizes of its 1..3 innermost enclosing boxes raised to "
                  "~2^24 / 2^31 / 2^32), pairwise substitution of near-by fields, byte-level havoc (flips, runs, deletes, duplicates, splices of two seeds, "
-                 "truncation, fourcc swaps), directed size+offset pairs, 19 amplifier families, and 16 000 (thorough 200 000) freshly generated plain and fragmented movies, each as a "
+                 "truncation, fourcc swaps), directed size+offset pairs, 19 amplifier families, and 40 000 (thorough 200 000) freshly generated plain and fragmented movies, each as a "
                  "file, as media segment against its own initialisation segment, and with one havoc variant. Every input is opened (read_header, and read_fragment_header against three opened initialisation segments) and, when it "
                  "opens, every accessor is called: movie and track accessors, metadata, to_json/summary/box_size of every parsed box, sample_count, "
                  "sample_offset and read_sample for ids 0..16, count-1..count+2, 2^31, 2^32-1 and track ids 0 / present / max+1. A panic hook records "
@@ -257,7 +257,7 @@ PROPS = {
         "level": "exploration",
         "profiles": ["chk"],
         "death_is_violation": True,
-        "min_evals": {"quick": 130000, "thorough": 1000000},
+        "min_evals": {"quick": 300000, "thorough": 1000000},
         "rule": ("the C06 corpus and mutators under an instrumented stream: per call (open, open-as-fragment, each sample read / accessor group) at "
                  "most 4000 + 16 n stream operations and 1 MiB + 16 n transferred bytes (n = input length; the stream returns an error when exceeded, "
                  "so a reader that loops without consuming input terminates with evidence) and at most 50 ms + 2 us x n thread CPU time, counted only "
@@ -278,7 +278,7 @@ PROPS = {
         "level": "exploration",
         "profiles": ["rel"],
         "death_is_violation": True,
-        "min_evals": {"quick": 130000, "thorough": 1000000},
+        "min_evals": {"quick": 300000, "thorough": 1000000},
         "rule": ("the C06 corpus and mutators under a counting global allocator: per call (open, open-as-fragment, every sample read and accessor group) "
                  "the peak of live heap bytes above the level at call entry must stay <= 64 KiB + 64 n and the largest single request <= 64 KiB + 16 n "
                  "(n = input length); requests above 1 GiB are recorded and refused, the resulting abort is attributed to the journalled case. "
@@ -295,8 +295,8 @@ PROPS = {
         "profiles": ["chk"],
         "death_is_violation": True,
         "exhaustive": {"quick": False, "thorough": True},
-        "min_evals": {"quick": 900000, "thorough": 18000000},
-        "rule": ("the fault is a truncation point. Subjects: 2000 (thorough 40 000) generated movies - plain with 1-3 interleaved tracks and the movie header "
+        "min_evals": {"quick": 2000000, "thorough": 18000000},
+        "rule": ("the fault is a truncation point. Subjects: 4000 (thorough 40 000) generated movies - plain with 1-3 interleaved tracks and the movie header "
                  "first or last, fragmented as one stream, and media segment + initialisation segment - and every file of the valid seed corpus (canned samples, reference-encoded movies of every codec with "
                  "movie header first or last, 64-bit and size-0 mdat, metadata, emsg, edit lists; fragmented single streams; media segments opened against "
                  "their initialisation segment; muxer outputs) EVERY cut position 0..len is enumerated (files above 20 kB: every byte of the first and last "
